@@ -62,6 +62,38 @@ func init() {
 			if g.chance(1, 2) {
 				p.Knobs.MapSeed = g.R.Uint64() | 1
 			}
+			if g.chance(1, 3) {
+				// (wave 6) some changes are refused by the device (content rule, predictable): recording a refusal is two
+				// store writes as well, and a stop between them must not turn the refusal into a success
+				p.Knobs.RejectDev = true
+				for i := range p.Scenario {
+					op := &p.Scenario[i]
+					if op.Kind != "set" || !g.chance(3, 10) {
+						continue
+					}
+					var ts []string
+					for _, t := range p.Knobs.Targets {
+						if _, ok := op.Targets[t]; ok {
+							ts = append(ts, t)
+						}
+					}
+					if len(ts) == 0 {
+						continue
+					}
+					t := ts[g.pick(len(ts))]
+					rp := Path{{Name: "cont1a"}, {Name: "cont2ab"}, {Name: "leaf2c"}}
+					dup := false
+					for _, o := range op.Targets[t] {
+						if o.P.K() == rp.K() || (o.Del && len(o.P) <= 2) {
+							dup = true
+						}
+					}
+					if !dup {
+						g.vseq++
+						op.Targets[t] = append(op.Targets[t], MOp{P: rp, V: fmt.Sprintf("s:%s%d", DevRejectValue, g.vseq)})
+					}
+				}
+			}
 			pos := ord % P
 			gp := NewGen(RunSeed(base, "C07-pos", ord))
 			kind := "crash"
